@@ -33,6 +33,13 @@ def tables(r):
     out.append({"example.com": "gv.test/fix/alpha", "gv.test": "example.com/lib"})
     out.append({"a": "example.com/lib", "a.b": "example.com/other", "a-b": "gv.test/fix/alpha", "a_b": "gv.test/fix/x.y"})
     out.append({"lib": "example.com/lib", "sub": "example.com/lib/sub", "x": "gv.test/fix/beta-pkg"})
+    # aliases that are proper string prefixes of the FIRST segment of referenced paths (gv.test/..., example.com/...), and of each other
+    out.append({"gv": "example.com/lib", "gv.tes": "example.com/other", "example": "gv.test/fix/alpha", "example.co": "gv.test/fix/x.y", "e": "gv.test/fix/beta-pkg"})
+    out.append({"g": "example.com/other", "gv.t": "example.com/lib", "example.": "gv.test/fix/alpha"} if False else {"g": "example.com/other", "gv.t": "example.com/lib", "exampl": "gv.test/fix/alpha"})
+    # aliases that equal a LATER segment of referenced paths (only the first segment is an alias position)
+    out.append({"fix": "example.com/lib", "alpha": "example.com/other", "com": "gv.test/fix/x.y", "test": "gv.test/fix/beta-pkg"})
+    # aliases differing only in letter case
+    out.append({"Lib": "example.com/lib", "lib": "example.com/other", "LIB": "gv.test/fix/alpha", "lIb": "gv.test/fix/x.y"})
     for _ in range(6):
         names = r.sample(["foo", "fo", "f", "fmt", "context", "strconv", "reflect", "lib", "al", "al.pha", "be-ta", "github.com", "example.com"], r.randint(1, 4))
         out.append({n: r.choice(base) for n in names})
@@ -64,8 +71,8 @@ def cfg_for(r, table):
     expect = []     # (position, written import, symbol)
     for i, f in enumerate(forms[:10]):
         kind = ["constructor", "value", "type", "argvalue", "struct"][i % 5]
-        if "." in f.strip('"').split("/")[-1] and not f.startswith('"'):
-            f = '"%s"' % f
+        if "." in f.strip('"').split("/")[-1] and not f.startswith('"') and (kind == "struct" or r.random() < 0.6):
+            f = '"%s"' % f          # (otherwise: an unquoted reference whose last path element has a dot - the import is the longest prefix)
         n = "s%d" % i
         if kind == "constructor":
             svcs[n] = {"constructor": "%s.NewA" % f}
@@ -112,6 +119,21 @@ def run(tier, seed, replay):
             plan.append((t, expect))
     # packages that are named only by the type of getter-less services: the import block lists none of them (adjacent, first, last)
     pk = ["gv.test/fix/alpha", "gv.test/fix/beta-pkg", "gv.test/fix/x.y", "example.com/lib", "example.com/other", "gv.test/fix/alpha/sub"]
+    # the alias table arrives in several files: later files add aliases and re-point earlier ones
+    for t1, t2 in [({"foo": "example.com/lib", "fo": "example.com/other"}, {"f": "gv.test/fix/alpha"}),
+                   ({"foo": "example.com/lib", "bar": "example.com/other"}, {"foo": "gv.test/fix/alpha"}),
+                   ({"a": "example.com/lib"}, {"a": "example.com/other", "a.b": "example.com/lib", "A": "gv.test/fix/x.y"}),
+                   ({"gv": "example.com/lib"}, {"gv.test": "example.com/other"})]:
+        merged = dict(t1, **t2)
+        for rep in range(2 if tier == "quick" else 20):
+            cfg, expect = cfg_for(r, merged)
+            first = {"meta": {"imports": dict(t1)}, "parameters": cfg.pop("parameters")}
+            cfg["meta"]["imports"] = dict(t2)
+            order = r.random() < 0.5      # the references may stand in the file that precedes the table they are resolved with
+            sp = common.mk_spec(len(specs), [first, cfg] if order else [dict(cfg, meta=dict(cfg["meta"], imports=dict(t1))), {"meta": {"imports": dict(t2)}, "parameters": first["parameters"]}], keep_out=True)
+            sp["what"] = ["aliases-two-files:" + ",".join(sorted(merged))]
+            specs.append(sp)
+            plan.append((merged, expect))
     for sel in ([0, 1], [0, 1, 2, 3, 4, 5], [3, 4], [5, 0], [2]):
         for stub in (False, True):
             cfg = {"services": {"s%d" % i: {"constructor": "NewA", "type": "*\"%s\".T" % pk[i]} for i in sel}}
@@ -168,8 +190,12 @@ def run(tier, seed, replay):
         if len(samples) < 3:
             samples.append({"table": table, "references": expect[:5], "import_block": api["imports"][:8]})
     # compile and run: every fixture package exports the same symbols, each identifying its own package
-    items = [("c%04d" % k, obs[k]["out_content"]) for k in acc][: (40 if tier == "quick" else 300)]
+    items = [("c%04d" % k, obs[k]["out_content"]) for k in acc if not specs[k]["flags"].get("stub")][: (60 if tier == "quick" else 300)]
     errs, unstable, init_fail = codegen.compile_batch(items)
+    sitems = [("c%04d" % k, obs[k]["out_content"]) for k in acc if specs[k]["flags"].get("stub")]
+    if sitems:
+        serrs, _, _ = codegen.compile_batch(sitems, tags="gontainerstub")
+        errs.update({n: l for n, l in serrs.items() if n != "_batch"})
     for name, lines in errs.items():
         if name != "_batch":
             k = int(name[1:])
